@@ -219,19 +219,31 @@ func ReceiveSession(ctx context.Context, rw io.ReadWriter, state SessionState, n
 	return negotiateSession(ctx, jid.JID{}, jid.JID{}, rw, Received|state, negotiate)
 }
 
+// setDeadline makes reads and writes on conn fail once ctx is done.
+// The deadline stays in the past until the returned function is called (and not
+// merely for an instant), otherwise a cancellation that arrives between two
+// reads or writes would be lost and the next one could block forever.
+// The returned function stops watching ctx, waits for the watcher and clears any
+// deadline it has set.
 func setDeadline(ctx context.Context, conn net.Conn) context.CancelFunc {
 	cancelCtx, cancel := context.WithCancel(context.Background())
+	done := make(chan struct{})
 	go func() {
+		defer close(done)
 		select {
 		case <-ctx.Done():
 			/* #nosec */
 			conn.SetDeadline(aLongTimeAgo)
+			<-cancelCtx.Done()
 			/* #nosec */
 			conn.SetDeadline(time.Time{})
 		case <-cancelCtx.Done():
 		}
 	}()
-	return cancel
+	return func() {
+		cancel()
+		<-done
+	}
 }
 
 func setWriteDeadline(ctx context.Context, conn net.Conn) context.CancelFunc {
